@@ -35,7 +35,7 @@ big integer whose magnitude exceeds `usize::MAX`, so such a slice bound is refus
 integer").  `true` = the proposed repair `design/fixes/C10-bigint-slice-bound.diff` (the magnitude
 saturates at `usize::MAX`, so the bound is clipped).  The theorems are proved for both settings
 (no proof unfolds this constant); flip it when the fix is applied to `/repo`. -/
-def fixBigintBound : Bool := false
+def fixBigintBound : Bool := true
 
 def usizeMaxNat : Nat := 18446744073709551615
 
